@@ -59,6 +59,10 @@ def spec_namespace():
     global _spec_ns
     if _spec_ns is None:
         from contracts import specs, specs_native
+        # the spec functions of specs.py use ENC / UUID5 / HASH ... as free names: bind them in THAT module to the native implementations
+        for k, v in vars(specs_native).items():
+            if not k.startswith("__") and not hasattr(specs, k):
+                setattr(specs, k, v)
         ns = {}
         ns.update({k: v for k, v in vars(specs).items() if not k.startswith("__")})
         ns.update({k: v for k, v in vars(specs_native).items() if not k.startswith("__")})
@@ -211,7 +215,7 @@ def run_case(c, inputs: dict, call=None, extra_ns=None) -> NativeResult:
             ns["__oldeval__"] = make_oldeval(cc)
             ns[n] = eval(cc[0], ns)
         for i, w in enumerate(when_vals):
-            if w is True:
+            if w is True and rs_compiled[i][0].must:
                 nr.failures.append((f"must-raise:{rs_compiled[i][0].label}", "returned normally although the stated condition held"))
         for lab, cc in compiled.items():
             ns["__oldeval__"] = make_oldeval(cc)
